@@ -199,6 +199,16 @@ def run(chk, w):
                             continue
                         extra.append(cnd)
                     ks = {k for k, (lo, s2, path, isp, dt) in enumerate(leaves) if off <= lo and lo + s2 <= off + sz}
+                    # unconditional = executed on every iteration: the store's block dominates every latch of the loop it is in
+                    # (the else-arm of `if (a && b)` has two predecessors and therefore no single dominating edge, but it is conditional)
+                    every_iter = True
+                    for h_, body_ in f.loops().items():
+                        if i.bb.id in body_:
+                            latches = [p_ for p_ in f.bmap[h_].pred if p_ in body_]
+                            if not all(i.bb.id == l_ or i.bb.id in f.dom().get(l_, ()) for l_ in latches):
+                                every_iter = False
+                    if not every_iter and not extra:
+                        extra = [i]
                     if extra:
                         for k in ks:
                             cond_of.setdefault(k, (i, extra[0]))
